@@ -196,17 +196,22 @@ static void case_small(const args_t *a, long cc, rng_t *r0)
 		uint64_t total_bits = 0;
 		for (size_t b = 0; b < nreg; b++) total_bits += (rg[b].hi - rg[b].lo) * 8;
 		if (want_sample()) sample("small: %zu entries in %zu data blocks + index (%s): all %" PRIu64 " single-bit flips of every block's crc+stored bytes, each observed through the verifying reader (5 access paths round-robin) and, sampled, the mtbl_verify tool", m.n, nb, wcfg_str(&cfg), total_bits);
-		uint64_t k = 0;
+		/* every bit, unless the file is so large that one slice would hold more than 40000 faults (minutes of forked observations each):
+		   then every stride-th bit of the slice, plus the first 40 and last 16 bits of every block; the evidence says which files were strided */
+		uint64_t k = 0, done = 0, per_slice = total_bits / SLICES, stride = per_slice > 40000 ? (per_slice + 39999) / 40000 : 1;
 		for (size_t b = 0; b < nreg; b++)
 			for (uint64_t bit = rg[b].lo * 8; bit < rg[b].hi * 8; bit++, k++) {
 				if ((long)(k % SLICES) != slice) continue;
+				if (stride > 1 && (k / SLICES) % stride != 0 && !(bit - rg[b].lo * 8 < 40 || rg[b].hi * 8 - bit <= 16)) continue;
+				done++;
 				fault_t f; f.n = 1; f.bit[0] = bit;
 				int tool = a->thorough ? ((k / SLICES) % 4 == 0) : ((k / SLICES) % 24 == 0);
 				/* the first 40 bits (crc field + first stored byte) and last 16 always go through the tool too */
 				if (bit - rg[b].lo * 8 < 40 || rg[b].hi * 8 - bit <= 16) tool = 1;
 				observe_fault(path, fd, &m, &rg[b], b, nb, &f, "single-bit", tool, (int)((k / SLICES) % M_N), r);
 			}
-		stat_add("small.single_bit_flips_enumerated", (k + SLICES - 1 - slice) / SLICES);
+		stat_add("small.single_bit_flips_enumerated", done);
+		if (slice == 0 && stride > 1) { STAT("small.files_too_large_for_every_bit_strided"); } else if (slice == 0) STAT("small.files_every_bit");
 		if (slice == 0) { STAT("small.files"); statf(1, "small.files.%s", COMP_NAME[cfg.comp]); case_hash(model_hash(&m) ^ fnv64(&cfg, sizeof cfg, 0)); }
 		close(fd);
 		free(rg);
